@@ -17,20 +17,23 @@ from .common import Ctx, VERIF
 from . import kalman_shared as ks
 
 DRIVERS = ["C03"]
+EXTRA_PROPS = ['KalmanBridge']   # refinement bridge from the executable QMat model to the matrix-level theorems (audited with this check)
 LEVEL = "proof"
 MANIFEST = {
     "category": "proof",
-    "text": ("Partial (DESIGN section 8). Lean 4 theorems over Mathlib matrices, any field, all dimensions, all horizons, any "
-             "missing-data pattern: the prediction step transports mean/MSE as an affine map of a Gaussian does; the update step equals "
-             "the conditional moments of the joint ((Q0, Q0 Z'),(Z Q0, F)); conditioning on y1 then y2 equals conditioning on (y1,y2) "
-             "jointly (block-inverse/Schur lemma); det and quadratic form of a 2x2 block covariance factor as F11-term + Schur-complement "
-             "term (the block LDL' step behind sum_t(log det F_t + pe'F^-1 pe) = stacked Gaussian log-density), iterated over periods "
-             "by induction; contributions sum to the total and empty periods contribute 0; the variance-rescaling identity. The smoother = "
-             "conditional expectation given all data is a stated, unproved target (what is proved about the smoother are the C08 identities). "
-             "The executable model (exact rationals, same operation structure as fords/kalmans.py incl. per-period row selection, "
-             "time-varying std, unknown-initial GLS correction) is tied to the code on every run by tolerance-class correspondence on "
-             "direct calls and through Simultaneous.kalman_filter, and an independent numpy batch-conditioning oracle on the real code "
-             "supplies the replay."),
+    "text": ("Partial (DESIGN section 8): the smoother = conditional expectation is not proved. Lean 4 theorems over Mathlib matrices, any "
+             "commutative ring with 2 invertible, all dimensions, every horizon N, any missing-data pattern (period-dependent row types): "
+             "filter_is_conditioning -- the moments the filter hands to every period are prior mean + C S^-1 (Y - mu) and V - C S^-1 C' "
+             "for the explicitly built stacked system (prior moments by the model's own moment recursion, proved to be the push-forward "
+             "of the primitives' covariance through the model equations; S^-1 proved to be a genuine symmetric inverse, and unique); "
+             "likelihood_is_stacked_density -- prod_t det F_t = det S_Y and sum_t pe'Fi pe = (Y-mu)' S_Y^-1 (Y-mu), so the reported value is "
+             "the stacked Gaussian negative log-density; the one-period lemmas (push-forward prediction, update = conditional moments, "
+             "sequential = joint conditioning via the Schur complement, block det / quadratic form); contributions sum to the total, empty "
+             "periods contribute 0; variance-rescaling identities; the unknown-initial correction equals the run from the shifted initial "
+             "mean in every period. The executable model (exact rationals, same operation structure as fords/kalmans.py incl. per-period "
+             "row selection, time-varying std, unknown-initial GLS correction) is tied to the code on every run by tolerance-class "
+             "correspondence on direct calls and through Simultaneous.kalman_filter, and an independent numpy batch-conditioning oracle on "
+             "the real code supplies the replay."),
     "design": "7/C03",
     "note": ("log det is taken in the harness (the model returns det Fi_t exactly); floating point, LAPACK inverse and the QZ solution are "
              "unmodelled substrate; tolerances 1e-8 relative on generator-controlled instances with cond(F_t) <= 1e6. The abstract Mathlib "
